@@ -135,10 +135,10 @@ func checkGates(p *ana.Prog, r *ana.Result, rule string, fn *ssa.Function, start
 		}
 		if ok {
 			r.Ok(rule, fname, "must-pass:"+g.name+"->"+targetName, strings.Join(g.gate.Sites, ","),
-				fmt.Sprintf("every path from the datagram read to %s passes the accept edge of %s%s (%d test site(s))", targetName, g.name, cls, len(g.gate.Sites)))
+				fmt.Sprintf("every path from the start point (datagram read / function entry) to %s passes the accept edge of %s%s (%d test site(s))", targetName, g.name, cls, len(g.gate.Sites)))
 		} else {
 			r.Violate(rule, fname, "must-pass:"+g.name+"->"+targetName, strings.Join(g.gate.Sites, ","),
-				fmt.Sprintf("a path from the datagram read reaches %s without passing acceptance test %s%s", targetName, g.name, cls), w...)
+				fmt.Sprintf("a path from the start point (datagram read / function entry) reaches %s without passing the test %s%s", targetName, g.name, cls), w...)
 		}
 	}
 }
